@@ -76,9 +76,9 @@ syntax "py_simp" (" [" Lean.Parser.Tactic.simpLemma,* "]")? : tactic
 macro_rules
   | `(tactic| py_simp) => `(tactic| simp [callFn, execBlock, exec, eval, evalList, bindParams, bindTuple, Vars.set, Vars.get,
       getAttr, lookupField, evalBin, evalCmp, Val.asInt?, Val.truthy, Val.elems?, Val.isErr, intBin, builtin, intsOf?,
-      maxInts, minInts, indexVal, forLoop, ints, nats, Val.beq, Val.beqList])
+      maxInts, minInts, minMaxInf, indexVal, forLoop, ints, nats, Val.beq, Val.beqList])
   | `(tactic| py_simp [$ls,*]) => `(tactic| simp [callFn, execBlock, exec, eval, evalList, bindParams, bindTuple, Vars.set, Vars.get,
       getAttr, lookupField, evalBin, evalCmp, Val.asInt?, Val.truthy, Val.elems?, Val.isErr, intBin, builtin, intsOf?,
-      maxInts, minInts, indexVal, forLoop, ints, nats, Val.beq, Val.beqList, $ls,*])
+      maxInts, minInts, minMaxInf, indexVal, forLoop, ints, nats, Val.beq, Val.beqList, $ls,*])
 
 end Qco.Py
